@@ -338,10 +338,10 @@ def slot_rules(ctx):
 def run(ctx):
     from ..shared import group_loop_rule as _group_loop_rule
 
-    _group_loop_rule(ctx, "R3.8", scope=lambda f, _s=("EasyFEA.Simulations",): f.module.name.startswith(_s), min_instances=5)
+    ctx.attempt(_group_loop_rule, ctx, "R3.8", scope=lambda f, _s=("EasyFEA.Simulations",): f.module.name.startswith(_s), min_instances=5)
     from ..shared import copy_out_rule as _copy_out_rule
 
-    _copy_out_rule(ctx, "R3.7", ["Get_K_C_M_F"], "EasyFEA.Simulations._simu._Simu")
+    ctx.attempt(_copy_out_rule, ctx, "R3.7", ["Get_K_C_M_F"], "EasyFEA.Simulations._simu._Simu")
     ctx.level = "other"
     ctx.explanation = (
         "Index arithmetic of the assembly (dof = node*dof_n+comp, rows/cols of flattened element matrices, block layout of N) is decided by interpreting "
